@@ -1,6 +1,7 @@
 import Proofs.DasStatement
 import Proofs.DasForeign
 import Proofs.DasFlat
+import Proofs.DasTotal
 /-!
   C08 — attributes survive the DAS.  Model: `PydapModel/DasText.lean` (follows parsers/das.py and
   responses/das.py *after* the two fixes: `float()` under Float32/Float64; size-0 values skipped everywhere).
@@ -83,7 +84,7 @@ theorem C08_foreign_line (ty k : Text) (xs : List Scalar) (rest : Text) (lvl : N
     is popped and becomes the variable's attributes. -/
 theorem C08_placement_flat (attrs : Dict) (n : Text) (e : Dict) (h : dget attrs n = some (.dict e)) :
     attachStep attrs [n] [] = .ok (derase attrs n, dupdate [] e) := by
-  simp [attachStep, nestedStep, dotted, h, pyUpdate, reduceGet, dget_derase_self]
+  simp [attachStep, nestedStep, dotted, h, reduceGet, dget_derase_self]
 
 /-- **placement, nested id.** With no flat entry, the container found by walking the id path through nested
     containers is popped from its parent and becomes the variable's attributes. -/
@@ -92,17 +93,31 @@ theorem C08_placement_nested (attrs nested e : Dict) (p : List Text) (k : Text)
     (h1 : reduceGet (.dict attrs) p.dropLast = .ok (.dict nested))
     (h2 : dget nested k = some (.dict e)) :
     attachStep attrs p [] = .ok (setNested attrs p.dropLast (derase nested k), dupdate [] e) := by
-  simp [attachStep, nestedStep, h0, hk, h1, h2, pyUpdate]
+  simp [attachStep, nestedStep, h0, hk, h1, h2]
 
-/-- **placement, keep-around rule.** A nested entry that is not a container (here: a number) stays with the
-    parent (re-appended) and the variable gets nothing. -/
-theorem C08_placement_keep (attrs nested : Dict) (p : List Text) (k tok : Text) (f : Bool)
-    (h0 : dget attrs (dotted p) = none) (hk : p.getLast? = some k)
+/-- **placement, keep-around rule (repaired code).** An entry under the variable's name that is NOT a container — a
+    string (the empty one and 2-character ones included), a number, a list — is an attribute of the parent: it stays
+    exactly where it is and the variable gets nothing.  (Before the repair it was popped and handed to `dict.update`,
+    which dropped `""`, re-read `["ab","cd"]` as pairs and re-appended the rest.) -/
+theorem C08_placement_keep (attrs nested : Dict) (p : List Text) (k : Text) (v : AVal) (init : Dict)
+    (h0 : ∀ e, dget attrs (dotted p) ≠ some (.dict e)) (hk : p.getLast? = some k)
     (h1 : reduceGet (.dict attrs) p.dropLast = .ok (.dict nested))
-    (h2 : dget nested k = some (.sc (.num tok f))) :
-    attachStep attrs p [] =
-      .ok (setNested attrs p.dropLast (derase nested k ++ [(k, .sc (.num tok f))]), []) := by
-  simp [attachStep, nestedStep, h0, hk, h1, h2, pyUpdate]
+    (h2 : dget nested k = some v) (hv : ∀ e, v ≠ .dict e) :
+    attachStep attrs p init = .ok (attrs, init) := by
+  have hn : nestedStep attrs p init = .ok (attrs, init) := by
+    cases v with
+    | dict e => exact absurd rfl (hv e)
+    | sc y => simp [nestedStep, hk, h1, h2]
+    | list y => simp [nestedStep, hk, h1, h2]
+  unfold attachStep
+  split
+  · next e he => exact absurd he (h0 e)
+  · exact hn
+
+/-- **the repaired `add_attributes` never raises**: for every dataset tree and every parsed dict (well-formed or not:
+    plain attributes named like variables or like the dataset, id paths running through strings, numbers, lists). -/
+theorem C08_attach_total (name : Text) (cs : List Var) (A : Dict) : ∃ r, addAttributes name cs A = .ok r :=
+  addAttributes_total name cs A
 
 /-- **placement, no entry.** A variable named nowhere in the DAS leaves the parsed attributes untouched. -/
 theorem C08_placement_none (attrs : Dict) (p : List Text) (init : Dict)
